@@ -532,6 +532,17 @@ func families() []family {
 		msgFamily("msg-extra", false, 3, 4, extraAspects(true)),
 		msgFamily("msg-tools", false, 3, 4, toolAspects(true)),
 		msgFamily("msg-manytools", false, 3, 4, manyToolAspects()),
+		// LONG streams: one-symbol alphabets, so that "all sequences up to length n" is one sequence per length and n can
+		// be large (a model streams hundreds of chunks; buffering / folding code has size thresholds): every length up
+		// to 140 (thorough 300), every split point of each
+		simpleFamily[string]("string-long", strModel, 140, 300, nil, val("ab")),
+		msgFamily("msg-long", false, 140, 300, []aspect{func() aspect {
+			a := toolAspect(tc(0, "", "", "", "a,"))
+			a.label = `role="" content="x" tools{#0 args=a,}`
+			inner := a.apply
+			a.apply = func(m *schema.Message) { inner(m); m.Content = "x" }
+			return a
+		}()}),
 	}
 	// pairwise mixes of reduced aspects (+ the nil message)
 	red := []struct {
